@@ -807,7 +807,7 @@ class Unit:
             # The resulting quantity may get quantized. Therefore we
             # have to calculate the final amount before creating the result!
             amnt, unit = self * other.unit
-            return (other.amount * amnt) * unit
+            return _amnt_times_unit(other.amount * amnt, unit)
         return NotImplemented
 
     @overload
@@ -899,7 +899,7 @@ class Unit:
             # The resulting quantity may get quantized. Therefore we
             # have to calculate the final amount before creating the result!
             amnt, unit = self / other.unit
-            return (amnt / other.amount) * unit
+            return _amnt_times_unit(amnt / other.amount, unit)
         return NotImplemented
 
     def __rtruediv__(self, other: Any) -> Quantity:
@@ -1619,12 +1619,12 @@ class Quantity(metaclass=QuantityMeta):
             # The resulting quantity may get quantized. Therefore we
             # have to calculate the final amount before creating the result!
             amnt, unit = self.unit * other.unit
-            return (self.amount * other.amount * amnt) * unit
+            return _amnt_times_unit(self.amount * other.amount * amnt, unit)
         if isinstance(other, Unit):
             # The resulting quantity may get quantized. Therefore we
             # have to calculate the final amount before creating the result!
             amnt, unit = self.unit * other
-            return (self.amount * amnt) * unit
+            return _amnt_times_unit(self.amount * amnt, unit)
         if isinstance(other, Real):
             return self.__class__(self.amount * Decimal(other), self.unit)
         return NotImplemented
@@ -1669,7 +1669,8 @@ class Quantity(metaclass=QuantityMeta):
                 # have to calculate the final amount before creating the
                 # result!
                 amnt, unit = self.unit / other.unit
-                return (self.amount / other.amount * amnt) * unit
+                return _amnt_times_unit(self.amount / other.amount * amnt,
+                                        unit)
         if isinstance(other, Unit):
             if self.__class__ is other.qty_cls:
                 equiv_amount = self.equiv_amount(other)
@@ -1683,7 +1684,7 @@ class Quantity(metaclass=QuantityMeta):
                 # have to calculate the final amount before creating the
                 # result!
                 amnt, unit = self.unit / other
-                return (self.amount * amnt) * unit
+                return _amnt_times_unit(self.amount * amnt, unit)
         if isinstance(other, Real):
             return self.__class__(self.amount / Decimal(other), self.unit)
         return NotImplemented
@@ -1764,6 +1765,14 @@ def _amnt_and_unit_from_term(term: UnitDefT) -> AmountUnitTupleT:
         else:
             raise
     return num, res_unit
+
+
+def _amnt_times_unit(amnt: Rational, unit: Optional[Unit]) -> BinOpResT:
+    # `unit` is None when all dimensions cancelled out: the result is the
+    # plain number
+    if unit is None:
+        return amnt
+    return amnt * unit
 
 
 def _qty_from_term(term: UnitDefT) -> BinOpResT:
